@@ -1712,6 +1712,10 @@ pub fn run(ctx: &Ctx) -> i32 {
   }
   let n_hang_candidates = hang_candidates.len();
   let hang_unconfirmed = AtomicUsize::new(0);
+  // The confirming run also gets five times the CPU budget: a request that merely is expensive
+  // (0.7 s alone, a multiple of that when other processes compete for caches and hyper-threads)
+  // must never be reported as a hang; a real non-terminating request still is.
+  let confirm_cfg = RunCfg { tier: cfg.tier, timeout: cfg.timeout * 5, rss_guard: cfg.rss_guard, scratch: cfg.scratch.clone() };
   {
     let go = AtomicBool::new(false);
     let nh = AtomicUsize::new(0);
@@ -1723,7 +1727,7 @@ pub fn run(ctx: &Ctx) -> i32 {
             break;
           }
           let (wi, ri) = hang_candidates[k];
-          let o = run_job(&cfg, &world_json[wi], &[per_world_texts[wi][ri].as_str()], &go).pop().unwrap();
+          let o = run_job(&confirm_cfg, &world_json[wi], &[per_world_texts[wi][ri].as_str()], &go).pop().unwrap();
           if !matches!(o, Outcome::Hang(_)) {
             hang_unconfirmed.fetch_add(1, Ordering::Relaxed);
             if trace {
@@ -1941,7 +1945,7 @@ pub fn run(ctx: &Ctx) -> i32 {
     cov,
     vec![
       "any Ok or Err result is accepted; result contents are not judged here".into(),
-      "a watchdog hit during the 16-worker sweep is confirmed by re-running the request with at most 4 workers active; only a second hit counts; resource use is judged only through the outcome: a request counts as hanging when it has not returned after the watchdog (2 s quick / 10 s thorough) or when its worker's resident set passes 3 GiB on these 4-document indexes".into(),
+      "a watchdog hit during the 16-worker sweep is confirmed by re-running the request with at most 4 workers active; only a second hit, under five times the CPU budget, counts; resource use is judged only through the outcome: a request counts as hanging when it has not returned after the watchdog (2 s quick / 10 s thorough) or when its worker's resident set passes 3 GiB on these 4-document indexes".into(),
       "vector queries are outside this check (feature build)".into(),
       "requests that do not deserialize are out of scope (C24 covers the HTTP layer)".into(),
     ],
